@@ -220,7 +220,7 @@ theorem escalateAuth_coop {cfg : MCfg} {t : Table} {c : Cfg} {ch : Chan MDev} {a
     have he2 := exec_pw_ok (cfg := cfg) (t := t)
       (s := { ch.dev with log := ch.dev.log ++ [(ch.dev.mode, lx.esc)], pending := some lx.name, tries := 0 })
       (line := c.secondary) (tgt := lx.name) rfl hpw
-    refine ⟨{ ch with dev := { mode := lx.name, pending := none, tries := 0,
+    refine ⟨{ ch with dev := { mode := lx.name, login := ch.dev.login, pending := none, tries := 0,
                                 log := ch.dev.log ++ [(ch.dev.mode, lx.esc)] } }, ?_, ?_⟩
     · unfold escalateAuth escalateSecond
       simp only [io, h.isOpen, Bool.false_eq_true, if_false, modeDev, he1, eventDone, if_true, endedOnComplete, Bool.and_false, he2, hkey]
